@@ -449,7 +449,7 @@ def run(ctx):
     if ctx.quick:
         params = {"leaves": 4, "styles": 0, "vocab": VOCAB_QUICK, "base": 0, "deep": 0}
     else:
-        params = {"leaves": 5, "styles": 1, "vocab": VOCAB_ALL, "base": 1, "deep": 150}
+        params = {"leaves": 6, "styles": 1, "vocab": VOCAB_ALL, "base": 1, "deep": 300}
     cfg = MC_CFG % dict(params, vocab=", ".join(tlaval.to_tla(v) for v in params["vocab"]), extra="")
     wrapper = {"MC_RuleGrammar.tla": _wrapper()}
     mc = tlc.run("MC_RuleGrammar", cfg, ctx.workdir, dump=True, extra_files=wrapper, timeout=3000, seed=ctx.seed)
